@@ -182,6 +182,12 @@ fn enforcement_guides() -> Vec<&'static str> {
         "input: in/1. output: out/1. input: aux/1.",
         "input: in/1. output: out/1. output: aux/1.",
         "input: in/1. output: out/1. output: aux/1. output: aux2/1.",
+        // direction-annotated user-guide assumptions: the conditions do not depend on the annotation
+        "input: in/1. output: out/1. assumption(backward): forall X (aux(X) -> in(X)).",
+        "input: in/1. output: out/1. assumption(forward): forall X (in(X) -> not aux(X)).",
+        "input: in/1. output: out/1. assumption(backward): forall X (in(X) -> out(X)).",
+        "input: in/1. output: out/1. assumption(backward): forall X (in(X) -> X > 0).",
+        "input: in/1. output: out/1. assumption(universal): forall X (zzz(X) -> in(X)).",
     ]
 }
 fn enforcement_specs() -> Vec<&'static str> {
@@ -267,7 +273,7 @@ fn reference_conditions(t: &ExtTask, bypass: bool) -> Option<Conds> {
 
 pub fn run(run: &Run) {
     let quick = run.quick();
-    run.set_rule("(a) every 1- and 2-rule program over 9 heads (basic/choice over p/0,p/1,q/0,q/1, constraint) x 91 bodies (<= 2 signed literals), every 3-rule program over single-literal bodies (stride in quick), every program of <= 5 single-positive-literal rules over 4 predicates: is_tight() vs acyclicity of the positive dependency graph, has_private_recursion vs reference for all 16 private sets; (b) every rule of C01's alphabets: is_regular() vs the manual's definition; (c) 17 programs x 17 programs/6 specifications x 12 user guides x bypass flag: decompose() returns problems only if the reference conditions all hold; non-trivial = distinct (verdict, shape) observations");
+    run.set_rule("(a) every 1- and 2-rule program over 9 heads (basic/choice over p/0,p/1,q/0,q/1, constraint) x 91 bodies (<= 2 signed literals), every 3-rule program over single-literal bodies (stride in quick), every program of <= 5 single-positive-literal rules over 4 predicates: is_tight() vs acyclicity of the positive dependency graph, has_private_recursion vs reference for all 16 private sets; (b) every rule of C01's alphabets: is_regular() vs the manual's definition; (c) 17 programs x 17 programs/6 specifications x 17 user guides (incl. direction-annotated assumptions) x bypass flag: decompose() returns problems only if the reference conditions all hold; non-trivial = distinct (verdict, shape) observations");
     run.assume("the reference conditions are the ones listed in the property; enforcement is checked one-directionally (problems only if conditions hold)");
     // (a)
     let (rules, texts) = abstract_rules();
